@@ -13,6 +13,7 @@ import (
 
 	parser "github.com/openfga/language/pkg/go/gen"
 	"github.com/openfga/language/pkg/go/transformer"
+	"github.com/openfga/language/pkg/go/utils"
 )
 
 var syntaxErrRe = regexp.MustCompile(`(?s)^syntax error at line=(-?\d+), column=(-?\d+): (.*)$`)
@@ -139,6 +140,31 @@ func init() {
 			res["text"] = encStr(text)
 		}
 		return res, nil
+	})
+
+	// C02: utils.IsRelationAssignable for every relation of a model: [[type, relation, 0|1]...] in type order, relations by name
+	register("assignable", func(req json.RawMessage) (any, error) {
+		var q struct {
+			M any `json:"m"`
+		}
+		if err := json.Unmarshal(req, &q); err != nil {
+			return nil, err
+		}
+		m, err := decModel(q.M)
+		if err != nil {
+			return nil, err
+		}
+		out := A{}
+		for _, td := range m.GetTypeDefinitions() {
+			for _, r := range sortedKeys(td.GetRelations()) {
+				v := 0
+				if utils.IsRelationAssignable(td.GetRelations()[r]) {
+					v = 1
+				}
+				out = append(out, A{encStr(td.GetType()), encStr(r), v})
+			}
+		}
+		return map[string]any{"rels": out}, nil
 	})
 
 	// C01: the composition DSL -> model -> DSL -> model -> DSL -> model -> DSL inside one process,
